@@ -289,9 +289,24 @@ static void apply(struct set *s, struct ref *r, struct op o, int check)
 }
 
 /* ---- building a state from a history --------------------------------------------------------- */
+/* 0: the set comes from set_alloc(); 1: a zero-filled struct set whose compare/cleanup members are assigned by the owner, which is how
+ * src/log.c, src/module.c and src/config.c make every set the daemon core uses */
+static int embedded_set;
+
+static struct set *make_set(void)
+{
+    struct set *s;
+    if (!embedded_set)
+        return set_alloc(dom.cmp, elem_cleanup);
+    s = calloc(1, sizeof(*s));
+    s->compare = dom.cmp;
+    s->cleanup = elem_cleanup;
+    return s;
+}
+
 static struct set *build(const struct op *hist, int n, struct ref *r, int check_all)
 {
-    struct set *s = set_alloc(dom.cmp, elem_cleanup);
+    struct set *s = make_set();
     int ii;
     memset(r, 0, sizeof(*r));
     next_serial = 0;
@@ -333,8 +348,16 @@ static void *map_at(uintptr_t want, size_t len)
 static int setup_domain(const char *name)
 {
     int k;
+    static char base[32];
+    const char *at = strchr(name, '@');
     memset(&dom, 0, sizeof(dom));
     dom.name = name;
+    embedded_set = 0;
+    if (at && !strcmp(at, "@embedded")) {
+        embedded_set = 1;
+        snprintf(base, sizeof(base), "%.*s", (int)(at - name), name);
+        name = base;
+    }
     if (!strcmp(name, "int-small")) {
         dom.cmp = set_compare_int;
         for (k = 0; k < NK; ++k) { dom.keys[k].i = 10 * (k + 1); }
@@ -550,6 +573,8 @@ static int do_replay(int argc, char **argv)
     return 0;
 }
 
+int e2_chain_main(int maxn, int embedded);
+
 int e2_set_main(int argc, char **argv)
 {
     if (argc >= 3 && !strcmp(argv[1], "bfs")) {
@@ -560,6 +585,8 @@ int e2_set_main(int argc, char **argv)
         if (setup_domain(argv[2])) { fprintf(stderr, "unknown domain\n"); return 2; }
         return do_replay(argc - 3, argv + 3);
     }
-    fprintf(stderr, "usage: core_vh set bfs|replay <domain> ...\n");
+    if (argc >= 3 && !strcmp(argv[1], "chains"))
+        return e2_chain_main(atoi(argv[2]), argc > 3 ? atoi(argv[3]) : 0);
+    fprintf(stderr, "usage: core_vh set bfs|replay <domain>[@embedded] ... | core_vh set chains <maxn> [embedded]\n");
     return 2;
 }
